@@ -232,7 +232,11 @@ class Model:
                 if _inside(v, e.may):
                     rng_may.append(e.string)
         if exact:
-            return set(exact + degenerate), False, 'exact', True
+            # a loose entry may just as well come out as the single value v (e.g. "-1", "..0" on
+            # uint8 resolves to 0..0); the statement does not rank it against the literal
+            loose = [e.string for e in self.entries
+                     if e.kind == 'range' and e.loose and _inside(v, e.may)]
+            return set(exact + degenerate + loose), False, 'exact', not loose
         if degenerate or rng_must:
             return set(rng_may), False, 'range', True
         if self.unclaimed:
@@ -416,6 +420,8 @@ def selftest():
     assert m.accept(7)[0] == {'b', 'c'} and m.accept(7)[1] is True and m.accept(7)[3] is False
     m = build(['2..4', '3'], ['r', 'x'], None, 'uint8')
     assert m.accept(3)[0] == {'x'} and m.claimers(3) == {'r', 'x'} and m.silent
+    m = build(['0', '-1', '..0'], ['a', 'b', 'c'], None, 'uint8')
+    assert m.accept(0)[0] == {'a', 'c'} and m.accept(0)[3] is False
     m = build(['1', '2'], ['a'], 'd', 'uint8')
     assert [e.string for e in m.entries] == ['a', 'd']
     m = build(['1'], ['a', 'b', 'c'], 'd', 'uint8')
